@@ -95,7 +95,8 @@ Section Progress.
       apply good_pbind.
       + eapply good_mono; [|apply IH]; lia.
       + intros oa st3 l3 H3. simpl. lia.
-    - apply good_handled; [lia|]. intros l'. simpl. pose proof (len_eat_block [endt; Nelsif; Nelse] st'). lia.
+    - destruct (exn_eqb e ESyntax); [|simpl; lia].
+      apply good_handled; [lia|]. intros l'. simpl. pose proof (len_eat_block [endt; Nelsif; Nelse] st'). lia.
   Qed.
 
   Lemma cases_good : forall k st l, S (len st) <= k -> len st <= g -> good (len st) (p_cases m pb k st l).
@@ -109,8 +110,17 @@ Section Progress.
       apply good_pbind; [eapply good_mono; [|apply IH]; lia|]. intros; simpl; lia. }
     destruct (cur_is_tag Nwhen st) eqn:E3; [|simpl; lia].
     destruct (cur_is_tag_cons _ _ E3) as (n' & r & Er). pose proof (len_adv_cons _ _ _ Er) as Ha.
-    pose proof (inner_len m true (adv st)) as Hi. destruct (inner m true (adv st)) as [[c st']|[e st']]; [|simpl; lia].
-    destruct Hi as [Hi _]. apply (good_mono (len (adv st))); [lia|].
+    assert (Hgen : good (len st) (match inner m true (adv st) with
+                                  | inr (e, st') => PErr e st' l
+                                  | inl (r0, st') => pbind (pb endwhen st' l) (fun b st2 l2 =>
+                                      pbind (p_cases m pb k st2 l2) (fun c st3 l3 => POk (CWhen r0 b c) st3 l3)) end)).
+    { pose proof (inner_len m true (adv st)) as Hi. destruct (inner m true (adv st)) as [[c st']|[e st']]; [|simpl; lia].
+      destruct Hi as [Hi _]. apply (good_mono (len (adv st))); [lia|].
+      apply good_pbind; [apply pb_good; lia|]. intros b st2 l2 H2.
+      apply good_pbind; [eapply good_mono; [|apply IH]; lia|]. intros; simpl; lia. }
+    change (tl (toks st)) with (toks (adv st)). destruct (toks (adv st)) as [|t2 r2] eqn:E4; try exact Hgen. destruct t2; try exact Hgen. destruct q; try exact Hgen.
+    pose proof (len_adv_cons _ _ _ E4) as Ha2. cbv zeta.
+    apply good_handled; [lia|]. intros l'. apply (good_mono (len (adv (adv st)))); [lia|].
     apply good_pbind; [apply pb_good; lia|]. intros b st2 l2 H2.
     apply good_pbind; [eapply good_mono; [|apply IH]; lia|]. intros; simpl; lia.
   Qed.
@@ -203,7 +213,7 @@ Section Progress.
   Lemma get_node_good n parse endt st l : good n (parse st l) -> good n (get_node m parse endt st l).
   Proof.
     unfold get_node. destruct (parse st l) as [a st' l'|e st' l'|]; simpl; auto. intros H.
-    apply good_handled; auto. intros l2. simpl. destruct endt; auto. pose proof (len_eat_block [t] st'). lia.
+    destruct (is_liquid e); [|exact H]. apply good_handled; auto. intros l2. simpl. destruct endt; auto. pose proof (len_eat_block [t] st'). lia.
   Qed.
 
   Lemma pnode_good st l t r : toks st = t :: r -> len st <= g -> good (len st) (pnode m pb g st l).
@@ -215,7 +225,6 @@ Section Progress.
     - apply get_node_good. unfold p_output. pose proof (inner_len m false (adv st)) as Hi.
       destruct (inner m false (adv st)) as [[c st2]|[e st2]]; simpl; [destruct Hi|]; lia.
     - apply get_node_good. eapply parse_of_good; eauto.
-    - apply get_node_good. unfold p_leaf. simpl. lia.
     - apply get_node_good. unfold p_leaf. simpl. lia.
   Qed.
 End Progress.
@@ -246,7 +255,8 @@ Proof.
   - destruct (Hadv st' Hn). apply good_pbind.
     + eapply good_mono; [|apply IH]; lia.
     + intros; simpl; lia.
-  - destruct (Hadv st' Hn). apply good_handled; [lia|]. intros l2. eapply good_mono; [|apply IH]; lia.
+  - destruct (Hadv st' Hn). destruct (is_liquid e); [|simpl; lia].
+    apply good_handled; [lia|]. intros l2. eapply good_mono; [|apply IH]; lia.
 Qed.
 
 Theorem parse_progress m lim f ts : S (tsize ts) <= f -> parse_fuel m lim f ts <> OutOfFuel.
@@ -258,23 +268,28 @@ Qed.
 
 
 (* ------------------------------------------------------------------------------------------------ lax and warn never raise *)
-Lemma get_node_noerr m parse endt st l : m <> Strict -> forall e st' l', get_node m parse endt st l <> PErr e st' l'.
+Lemma get_node_noerr m parse endt st l : m <> Strict ->
+  forall e st' l', get_node m parse endt st l = PErr e st' l' -> is_liquid e = false.
 Proof.
-  intros Hm e st' l'. unfold get_node. destruct (parse st l); try discriminate.
+  intros Hm e st' l'. unfold get_node. destruct (parse st l) as [a s1 l1|e1 s1 l1|]; try discriminate.
+  destruct (is_liquid e1) eqn:El; [|intros H; inversion H; subst; exact El].
   unfold handled, handle. destruct m; try contradiction; discriminate.
 Qed.
 
-Lemma pnode_noerr m pb g st l : m <> Strict -> forall e st' l', pnode m pb g st l <> PErr e st' l'.
+Lemma pnode_noerr m pb g st l : m <> Strict -> forall e st' l', pnode m pb g st l = PErr e st' l' -> is_liquid e = false.
 Proof. intros Hm. unfold pnode. destruct (toks st) as [|[]]; apply get_node_noerr; auto. Qed.
 
-Lemma ploop_noerr m lim : m <> Strict -> forall f stops st l e st' l', ploop m lim f stops st l <> PErr e st' l'.
+(* in warn and lax mode the only exceptions that leave the parser are non-Liquid ones raised by an expression parser *)
+Lemma ploop_noerr m lim : m <> Strict ->
+  forall f stops st l e st' l', ploop m lim f stops st l = PErr e st' l' -> is_liquid e = false.
 Proof.
   intros Hm. induction f as [|f IH]; intros stops st l e st' l'; [discriminate|].
   simpl. destruct (toks st) as [|t r]; [discriminate|]. destruct (is_stop stops t); [discriminate|].
   pose proof (pnode_noerr m (pblock_of lim (ploop m lim f)) f st l Hm) as Hn.
   destruct (pnode m (pblock_of lim (ploop m lim f)) f st l) as [n s1 l1|e1 s1 l1|]; [| |discriminate].
-  - simpl. pose proof (IH stops (adv s1) l1) as H. destruct (ploop m lim f stops (adv s1) l1); simpl; try discriminate. apply H.
-  - exfalso. eapply Hn. reflexivity.
+  - simpl. pose proof (IH stops (adv s1) l1) as H. destruct (ploop m lim f stops (adv s1) l1); simpl; try discriminate.
+    intros E; inversion E; subst. eapply H. reflexivity.
+  - rewrite (Hn _ _ _ eq_refl). intros E; inversion E; subst. eapply Hn. reflexivity.
 Qed.
 
 (* ------------------------------------------------------------------------------------------------ one simulation, two uses *)
@@ -339,8 +354,8 @@ Section Sim.
     - apply G_pbind; [apply Hpb; auto|]. intros b s2 l2 l2' H2.
       apply G_pbind; [apply IH; auto|]. intros oa s3 l3 l3' H3. apply G_ok; auto.
     - case_eq flag; intros F.
-      + apply G_strict_handled; auto.
-      + rewrite (Hi F). apply H_handled; auto. intros. apply G_ok; auto.
+      + destruct (exn_eqb e0 ESyntax); [apply G_strict_handled; auto|]. unfold G. rewrite F. exact I.
+      + rewrite (Hi F). destruct (exn_eqb e0 ESyntax); [|gerr; auto]. apply H_handled; auto. intros. apply G_ok; auto.
   Qed.
 
   Lemma sim_cases : forall g st l l', lr l l' -> G (p_cases m1 pb1 g st l) (p_cases m2 pb2 g st l').
@@ -352,10 +367,22 @@ Section Sim.
     { apply G_pbind; [apply Hpb; auto|]. intros b s2 l2 l2' H2.
       apply G_pbind; [apply IH; auto|]. intros c s3 l3 l3' H3. apply G_ok; auto. }
     destruct (cur_is_tag Nwhen st); [|gerr; auto].
-    inner_cases true (adv st) c st2 Hi.
-    - apply G_pbind; [apply Hpb; auto|]. intros b s2 l2 l2' H2.
-      apply G_pbind; [apply IH; auto|]. intros c' s3 l3 l3' H3. apply G_ok; auto.
-    - gerr. intros F. rewrite (Hi F). reflexivity.
+    assert (Hgen : G (match inner m1 true (adv st) with
+                      | inr (e, st') => PErr e st' l
+                      | inl (r0, st') => pbind (pb1 endwhen st' l) (fun b st2 l2 =>
+                          pbind (p_cases m1 pb1 g st2 l2) (fun c st3 l3 => POk (CWhen r0 b c) st3 l3)) end)
+                     (match inner m2 true (adv st) with
+                      | inr (e, st') => PErr e st' l'
+                      | inl (r0, st') => pbind (pb2 endwhen st' l') (fun b st2 l2 =>
+                          pbind (p_cases m2 pb2 g st2 l2) (fun c st3 l3 => POk (CWhen r0 b c) st3 l3)) end)).
+    { inner_cases true (adv st) c st2 Hi.
+      - apply G_pbind; [apply Hpb; auto|]. intros b s2 l2 l2' H2.
+        apply G_pbind; [apply IH; auto|]. intros c' s3 l3 l3' H3. apply G_ok; auto.
+      - gerr. intros F. rewrite (Hi F). reflexivity. }
+    change (tl (toks st)) with (toks (adv st)). destruct (toks (adv st)) as [|t2 r2]; try exact Hgen. destruct t2; try exact Hgen. destruct q; try exact Hgen.
+    cbv zeta. apply H_handled; auto. intros l2 l2' H2.
+    apply G_pbind; [apply Hpb; auto|]. intros b s2 l3 l3' H3.
+    apply G_pbind; [apply IH; auto|]. intros c' s3 l4 l4' H4. apply G_ok; auto.
   Qed.
 
   Lemma sim_if g neg st l l' : lr l l' -> G (p_if m1 pb1 g neg st l) (p_if m2 pb2 g neg st l').
@@ -488,8 +515,9 @@ Section Sim.
     intros Hl H. unfold get_node. destruct (parse1 st l) as [a s1 l1|e s1 l1|]; simpl in H.
     - destruct H as (l1' & -> & H1). apply G_ok; auto.
     - case_eq flag; intros F.
-      + apply G_strict_handled; auto.
-      + rewrite F in H. destruct H as (l1' & -> & H1). apply H_handled; auto. intros. apply G_ok; auto.
+      + destruct (is_liquid e); [apply G_strict_handled; auto|]. unfold G. rewrite F. exact I.
+      + rewrite F in H. destruct H as (l1' & -> & H1). destruct (is_liquid e); [|gerr; auto].
+        apply H_handled; auto. intros. apply G_ok; auto.
     - simpl. case_eq flag; intros F; rewrite F in H; auto. rewrite H. reflexivity.
   Qed.
 
@@ -502,7 +530,6 @@ Section Sim.
     - apply sim_get_node; auto. unfold p_output. inner_cases false (adv st) c st2 Hi; [apply G_ok; auto|].
       gerr. intros F. rewrite (Hi F). reflexivity.
     - apply sim_get_node; auto. apply sim_parse_of; auto.
-    - apply sim_get_node; auto. unfold p_leaf. apply G_ok; auto.
     - apply sim_get_node; auto. unfold p_leaf. apply G_ok; auto.
   Qed.
 End Sim.
@@ -534,8 +561,9 @@ Section SimLoop.
     destruct (pnode m1 (pblock_of lim (ploop m1 lim f)) f st l) as [n s1 l1|e s1 l1|]; simpl in Hn.
     - destruct Hn as (l1' & -> & H1). apply G_pbind; [apply IH; auto|]. intros. apply G_ok; auto.
     - destruct (Sumbool.sumbool_of_bool flag) as [F|F].
-      + apply G_strict_handled with (m1 := m1); auto.
-      + rewrite F in Hn. destruct Hn as (l1' & -> & H1). apply H_handled; auto.
+      + destruct (is_liquid e); [apply G_strict_handled with (m1 := m1); auto|]. unfold G. rewrite F. exact I.
+      + rewrite F in Hn. destruct Hn as (l1' & -> & H1). destruct (is_liquid e); [|apply G_err with (l' := l1'); auto].
+        apply H_handled; auto.
     - destruct (Sumbool.sumbool_of_bool flag) as [F|F]; rewrite F in Hn; [simpl; rewrite F; exact I|]. rewrite Hn. simpl. rewrite F. reflexivity.
   Qed.
 End SimLoop.
@@ -583,13 +611,14 @@ Qed.
 
 (* ------------------------------------------------------------------------------------------------ parsing: the three statements *)
 Lemma ploop_top_ok m lim ts : m <> Strict ->
-  exists b st l, ploop m lim (S (tsize ts)) [] {| toks := ts; depth := 0 |} log0 = POk b st l.
+  (exists b st l, ploop m lim (S (tsize ts)) [] {| toks := ts; depth := 0 |} log0 = POk b st l) \/
+  (exists e st l, ploop m lim (S (tsize ts)) [] {| toks := ts; depth := 0 |} log0 = PErr e st l /\ is_liquid e = false).
 Proof.
   intros Hm. pose proof (ploop_good m lim (S (tsize ts)) [] {| toks := ts; depth := 0 |} log0 ltac:(unfold len; simpl; lia)) as Hg.
   pose proof (ploop_noerr m lim Hm (S (tsize ts)) [] {| toks := ts; depth := 0 |} log0) as He.
   destruct (ploop m lim (S (tsize ts)) [] {| toks := ts; depth := 0 |} log0) as [b st l|e st l|]; simpl in Hg.
-  - eauto.
-  - exfalso. eapply He. reflexivity.
+  - left. eauto.
+  - right. exists e, st, l. split; [reflexivity|]. eapply He. reflexivity.
   - contradiction.
 Qed.
 
@@ -599,20 +628,26 @@ Proof. unfold lrel, log0; simpl; auto. Qed.
 Lemma lrel_warn lw ll : lrel lw ll -> lw = {| emitted := suppressed ll; suppressed := suppressed ll |}.
 Proof. destruct lw as [e s]. unfold lrel; simpl. intros (-> & -> & _). reflexivity. Qed.
 
+(* warn mode against lax mode: the same tree and one warning per suppressed error -- or the same non-Liquid exception, raised by
+   an expression parser, leaves both (those are outside this property, see C02) *)
 Theorem warn_parse_is_lax_parse lim ts :
-  exists b l, parse Lax lim ts = Ok (b, l) /\ emitted l = [] /\
-              parse Warn lim ts = Ok (b, {| emitted := suppressed l; suppressed := suppressed l |}).
+  (exists b l, parse Lax lim ts = Ok (b, l) /\ emitted l = [] /\
+               parse Warn lim ts = Ok (b, {| emitted := suppressed l; suppressed := suppressed l |})) \/
+  (exists e, parse Lax lim ts = Err e /\ parse Warn lim ts = Err e /\ is_liquid e = false).
 Proof.
   unfold parse, parse_fuel.
-  destruct (ploop_top_ok Warn lim ts ltac:(discriminate)) as (b & st & lw & Hw).
   pose proof (ploop_warn_lax lim (S (tsize ts)) [] {| toks := ts; depth := 0 |} log0 log0 lrel0) as H.
-  remember (S (tsize ts)) as f eqn:Ef. clear Ef.
-  rewrite Hw in H. unfold G in H. destruct H as (ll & Hl & Hr). rewrite Hw, Hl.
-  exists b, ll. split; [reflexivity|]. split; [apply Hr|]. rewrite (lrel_warn _ _ Hr). reflexivity.
+  destruct (ploop_top_ok Warn lim ts ltac:(discriminate)) as [(b & st & lw & Hw)|(e & st & lw & Hw & He)];
+    remember (S (tsize ts)) as f eqn:Ef; clear Ef; rewrite Hw in H; unfold G in H; destruct H as (ll & Hl & Hr); rewrite Hw, Hl.
+  - left. exists b, ll. split; [reflexivity|]. split; [apply Hr|]. rewrite (lrel_warn _ _ Hr). reflexivity.
+  - right. exists e. auto.
 Qed.
 
-Theorem lax_parse_total lim ts : exists b l, parse Lax lim ts = Ok (b, l) /\ emitted l = [].
-Proof. destruct (warn_parse_is_lax_parse lim ts) as (b & l & H1 & H2 & _). eauto. Qed.
+Theorem lax_parse_total lim ts :
+  (exists b l, parse Lax lim ts = Ok (b, l) /\ emitted l = []) \/ (exists e, parse Lax lim ts = Err e /\ is_liquid e = false).
+Proof.
+  destruct (warn_parse_is_lax_parse lim ts) as [(b & l & H1 & H2 & _)|(e & H1 & _ & H3)]; [left|right]; eauto.
+Qed.
 
 Theorem strict_parse_invariant lim ts b l :
   parse Strict lim ts = Ok (b, l) -> l = log0 /\ forall m, parse m lim ts = Ok (b, log0).
@@ -698,28 +733,48 @@ Qed.
 Theorem run_lax_never_raises_liquid lim ts :
   match run_recover (mk_case Lax lim ts) with
   | OOut _ n => n = 0
-  | ORenderErr e => is_liquid e = false
-  | _ => False
+  | OParseErr e | ORenderErr e => is_liquid e = false
+  | OFuel => False
   end.
 Proof.
   unfold run_recover, mk_case; simpl.
-  destruct (lax_parse_total lim ts) as (b & l & -> & Hl).
+  destruct (lax_parse_total lim ts) as [(b & l & -> & Hl)|(e & -> & He)]; [|exact He].
   destruct (lax_render_total b) as [(t & l2 & -> & Hl2)|(e & -> & He)]; [rewrite Hl, Hl2; reflexivity|exact He].
 Qed.
 
 (* warn mode: same text as lax mode, and as many warnings as lax mode suppressed errors *)
 Theorem run_warn_is_lax lim ts :
-  exists b l1, parse Lax lim ts = Ok (b, l1) /\
-    match render Lax b with
-    | Ok (t, l2) => run_recover (mk_case Lax lim ts) = OOut t 0 /\
-                    run_recover (mk_case Warn lim ts) = OOut t (List.length (suppressed l1) + List.length (suppressed l2))
-    | Err e => run_recover (mk_case Lax lim ts) = ORenderErr e /\ run_recover (mk_case Warn lim ts) = ORenderErr e /\ is_liquid e = false
-    | OutOfFuel => False
-    end.
+  match parse Lax lim ts with
+  | Ok (b, l1) =>
+      match render Lax b with
+      | Ok (t, l2) => run_recover (mk_case Lax lim ts) = OOut t 0 /\
+                      run_recover (mk_case Warn lim ts) = OOut t (List.length (suppressed l1) + List.length (suppressed l2))
+      | Err e => run_recover (mk_case Lax lim ts) = ORenderErr e /\ run_recover (mk_case Warn lim ts) = ORenderErr e /\ is_liquid e = false
+      | OutOfFuel => False
+      end
+  | Err e => run_recover (mk_case Lax lim ts) = OParseErr e /\ run_recover (mk_case Warn lim ts) = OParseErr e /\ is_liquid e = false
+  | OutOfFuel => False
+  end.
 Proof.
-  destruct (warn_parse_is_lax_parse lim ts) as (b & l1 & Hp & He & Hw). exists b, l1. split; [exact Hp|].
-  unfold run_recover, mk_case; simpl. rewrite Hp, Hw.
+  unfold run_recover, mk_case; simpl.
+  destruct (warn_parse_is_lax_parse lim ts) as [(b & l1 & Hp & He & Hw)|(e & Hp & Hw & He)]; rewrite Hp, Hw; [|auto].
   destruct (warn_render_is_lax_render b) as [(t & l2 & -> & He2 & ->)|(e & -> & -> & Hl)]; simpl.
   - rewrite He, He2. auto.
   - auto.
 Qed.
+
+(* ------------------------------------------------------------------------------------------------ the two repaired defects, as they were *)
+(* a when list whose second alternative is rejected only in strict mode: before the repair strict mode parsed, silently, to a
+   shorter list -- here one that does not match -- while lax mode kept the matching alternative *)
+Theorem when_list_old_refuted :
+  let rs := RVal [] 0 in let rl := RVal [] 1 in
+  let ts := fun m => [TTag Ncase; TExpr (XOk (RVal [] 1)); TTag Nwhen; TExpr (XOk (when_value_old m rs rl)); TContent [104%N]; TTag Nendcase] in
+  run_recover (mk_case Strict 30 (ts Strict)) = OOut [] 0 /\ run_recover (mk_case Lax 30 (ts Lax)) = OOut [104%N] 0.
+Proof. vm_compute. split; reflexivity. Qed.
+
+(* an expression nested so deeply that parsing it overflows the stack: Tag.get_node did not catch the RecursionError, which left
+   from_string in every mode; reported as ContextDepthError it is handled like any other error of that node *)
+Theorem deep_nesting_old_refuted :
+  parse Lax 30 [TOutput; TExpr (XBad ERecursionError)] = Err ERecursionError /\
+  parse Lax 30 [TOutput; TExpr (XBad EContextDepth)] = Ok (BCons NIllegal BNil, {| emitted := []; suppressed := [EContextDepth] |}).
+Proof. vm_compute. split; reflexivity. Qed.
